@@ -84,7 +84,22 @@ def cases(rng, tier, shard, nshards, phase):
                     row = [0.0] * nb
                     row[rng.randrange(nb)] = 1.0
                 coh.append(row)
-            yield {"op": "bt_blocs", "sizes": sizes, "supports": sup, "cohesion": coh,
+            near = rng.random() < 0.3 and max(sizes) >= 2
+            if near:
+                # two blocs whose combined intervals agree to four decimals and differ beyond: the same rows except
+                # that a slate reached with a share of 6e-5 has its two supports the other way round
+                j = sizes.index(max(sizes))
+                sup[0][j] = [2.0, 1.0] + [1.0] * (sizes[j] - 2)
+                sup[1] = [list(x) for x in sup[0]]
+                sup[1][j] = [1.0, 2.0] + [1.0] * (sizes[j] - 2)
+                others = [x for x in range(nb) if x != j]
+                row = [0.0] * nb
+                row[j] = 6e-5
+                for x in others:
+                    row[x] = (1.0 - 6e-5) / len(others)
+                coh[0] = list(row)
+                coh[1] = list(row)
+            yield {"op": "bt_blocs", "sizes": sizes, "supports": sup, "cohesion": coh, "near_identical": near,
                    "row_order": rng.choice(["own-first", "shuffled", "bloc-order"]), "os": rng.randint(0, 10 ** 6)}
         elif k < 0.8:
             n = rng.randint(1, 6)
